@@ -59,6 +59,24 @@ func genStyDoc(rc *RC) []byte {
 		b = append(b, []string{">", "> ", "\n>", "", ">>"}[ch.Int("workload", 5)]...)
 		b = append(b, []string{"\xe3\x80", "\xc3", "\xf0\x9f\x98", "\xe3"}[ch.Int("workload", 4)]...)
 	}
+	if ch.Chance("workload", 1, 12) {
+		// a long run of plain text (longer than any internal look-ahead and than one read) in front of, or around, directives
+		k := []int{600, 1023, 1024, 1025, 2000, 4095, 4096, 4100, 9000}[ch.Int("workload", 9)]
+		run := bytes.Repeat([]byte("a"), k)
+		if ch.Chance("workload", 1, 2) {
+			for i := 37; i < len(run); i += 61 {
+				run[i] = ' '
+			}
+		}
+		pos := 0
+		if len(b) > 0 {
+			pos = ch.Int("workload", len(b)+1)
+		}
+		b = append(append(append([]byte(nil), b[:pos]...), run...), b[pos:]...)
+		if ch.Chance("workload", 1, 2) {
+			b = append(b, []string{"*b*", " _c_ ", "`d`\n", "~e~"}[ch.Int("workload", 4)]...)
+		}
+	}
 	if ch.Chance("workload", 1, 400) {
 		// a very long line, up to and beyond the scanner's token limit
 		k := []int{4000, 65000, 65536, 70000}[ch.Int("workload", 4)]
